@@ -23,7 +23,7 @@ EXTENDS Integers, Sequences, FiniteSets, TLC, Json
 CONSTANTS Parts,        \* partition names "topic/partition"
           MaxOff,       \* offsets 0..MaxOff
           Metas,        \* metadata strings
-          InitOffs,     \* possible initially stored offsets (-1 = nothing stored)
+          InitOffs,     \* initially stored positions: 0 = nothing stored, k > 0 = offset k-1 (metadata "i")
           MaxOps,       \* bound on MarkOffset/ResetOffset calls
           MaxCommits,   \* bound on commits before Close
           RetryMaxes,   \* values of Consumer.Offsets.Retry.Max
@@ -34,20 +34,24 @@ CONSTANTS Parts,        \* partition names "topic/partition"
           FlightMarks,  \* "any": marks interleave with every step (model checking)
                         \* "window": marks only while idle or while the request is in flight
                         \* "none": marks only while idle (sequential behaviours)
+          InitSame,     \* all partitions start with the same stored position (smaller quick model)
+          SimSalts,     \* 0: every mark/reset argument is enabled (exhaustive runs); n > 0 (simulation):
+                        \* arguments of the k-th call are a pseudo-random function of a salt in 0..n
+                        \* chosen initially, so that random walks mix calls, commits and Close evenly
           Emit,         \* record hist and print finished behaviours as JSON
           Bug           \* "none"; "clear_always" (non-vacuity self-test of the invariants)
 
 VARIABLES pom, store, pc, todo, req, resp, cached, ops, commits, faults,
           closeSt, attempt, auto, retryMax,
           \* ghosts
-          marks, touched, lowSince, lowAfterSnap, reqLow, backOk, clearOk, finalsOk, init0, hist
+          marks, touched, lowSince, lowAfterSnap, reqLow, backOk, clearOk, finalsOk, init0, hist, salt
 
 vars == <<pom, store, pc, todo, req, resp, cached, ops, commits, faults, closeSt, attempt, auto,
-          retryMax, marks, touched, lowSince, lowAfterSnap, reqLow, backOk, clearOk, finalsOk, init0, hist>>
+          retryMax, marks, touched, lowSince, lowAfterSnap, reqLow, backOk, clearOk, finalsOk, init0, hist, salt>>
 
 Inf == MaxOff + 10
 Pos(o, m) == [off |-> o, meta |-> m]
-InitPos(o) == IF o < 0 THEN Pos(-1, "") ELSE Pos(o, "i")
+InitPos(k) == IF k = 0 THEN Pos(-1, "") ELSE Pos(k - 1, "i")
 Cur(p) == Pos(pom[p].off, pom[p].meta)
 Min(a, b) == IF a < b THEN a ELSE b
 Put(f, k, v) == [x \in DOMAIN f \cup {k} |-> IF x = k THEN v ELSE f[x]]
@@ -58,6 +62,8 @@ NoStep == UNCHANGED hist
 
 Init ==
   /\ store \in [Parts -> {InitPos(o) : o \in InitOffs}]
+  /\ InitSame => \A p, q \in Parts : store[p] = store[q]
+  /\ salt \in 0..SimSalts
   /\ pom = [p \in Parts |-> [off |-> store[p].off, meta |-> store[p].meta, dirty |-> FALSE, done |-> FALSE]]
   /\ pc = "idle" /\ todo = {} /\ req = <<>> /\ resp = <<>> /\ cached = TRUE   \* ManagePartition looked it up
   /\ ops = 0 /\ commits = 0 /\ faults = 0
@@ -68,13 +74,25 @@ Init ==
   /\ backOk = TRUE /\ clearOk = TRUE /\ finalsOk = TRUE
   /\ init0 = store /\ hist = <<>>
 
+SetSeq(S) == LET RECURSIVE F(_) F(X) == IF X = {} THEN <<>> ELSE LET x == CHOOSE y \in X : TRUE IN <<x>> \o F(X \ {x}) IN F(S)
+PartSeq == SetSeq(Parts)
+MetaSeq == SetSeq(Metas)
+\* simulation only: the arguments of the k-th call
+Picked(p, o, m, a, b, c) ==
+  \/ SimSalts = 0
+  \/ LET np == Len(PartSeq) nm == Len(MetaSeq)
+         x == salt * a + ops * b + (salt \div 7) * (ops + 1) + c
+     IN /\ p = PartSeq[(x % np) + 1]
+        /\ o = (x \div np) % (MaxOff + 1)
+        /\ m = MetaSeq[((x \div (np * (MaxOff + 1))) % nm) + 1]
+
 MarksAllowed == \/ FlightMarks = "any"
                 \/ pc = "idle"
                 \/ FlightMarks = "window" /\ pc = "sent"
 
 \* MarkOffset (offset_manager.go MarkOffset): monotone
 Mark(p, o, m) ==
-  /\ closeSt = "open" /\ ops < MaxOps /\ MarksAllowed
+  /\ closeSt = "open" /\ ops < MaxOps /\ MarksAllowed /\ Picked(p, o, m, 31, 17, 0)
   /\ ops' = ops + 1
   /\ IF o > pom[p].off
      THEN /\ pom' = [pom EXCEPT ![p].off = o, ![p].meta = m, ![p].dirty = TRUE]
@@ -83,11 +101,11 @@ Mark(p, o, m) ==
      ELSE UNCHANGED <<pom, marks, touched>>
   /\ Step("mark", p, o, m, "none", <<>>)
   /\ UNCHANGED <<store, pc, todo, req, resp, cached, commits, faults, closeSt, attempt, auto, retryMax,
-                 lowSince, lowAfterSnap, reqLow, backOk, clearOk, finalsOk, init0>>
+                 lowSince, lowAfterSnap, reqLow, backOk, clearOk, finalsOk, init0, salt>>
 
 \* ResetOffset: downward (or equal) only
 Reset(p, o, m) ==
-  /\ closeSt = "open" /\ ops < MaxOps /\ MarksAllowed
+  /\ closeSt = "open" /\ ops < MaxOps /\ MarksAllowed /\ Picked(p, o, m, 13, 29, 5)
   /\ ops' = ops + 1
   /\ IF o <= pom[p].off
      THEN /\ pom' = [pom EXCEPT ![p].off = o, ![p].meta = m, ![p].dirty = TRUE]
@@ -98,7 +116,7 @@ Reset(p, o, m) ==
      ELSE UNCHANGED <<pom, marks, touched, lowSince, lowAfterSnap>>
   /\ Step("resetoff", p, o, m, "none", <<>>)
   /\ UNCHANGED <<store, pc, todo, req, resp, cached, commits, faults, closeSt, attempt, auto, retryMax,
-                 reqLow, backOk, clearOk, finalsOk, init0>>
+                 reqLow, backOk, clearOk, finalsOk, init0, salt>>
 
 \* flushToBroker starts: Commit() while open, or one of the final attempts of Close()
 BuildStart ==
@@ -109,7 +127,7 @@ BuildStart ==
         /\ NoStep
   /\ pc' = "building" /\ todo' = Parts /\ req' = <<>>
   /\ UNCHANGED <<pom, store, resp, cached, ops, faults, closeSt, auto, retryMax, marks, touched,
-                 lowSince, lowAfterSnap, reqLow, backOk, clearOk, finalsOk, init0>>
+                 lowSince, lowAfterSnap, reqLow, backOk, clearOk, finalsOk, init0, salt>>
 
 \* constructRequest, one partition: snapshot under this partition's lock
 BuildOne(p) ==
@@ -120,7 +138,7 @@ BuildOne(p) ==
   /\ lowAfterSnap' = [lowAfterSnap EXCEPT ![p] = Inf]
   /\ NoStep
   /\ UNCHANGED <<pom, store, pc, resp, cached, ops, commits, faults, closeSt, attempt, auto, retryMax,
-                 marks, touched, lowSince, backOk, clearOk, finalsOk, init0>>
+                 marks, touched, lowSince, backOk, clearOk, finalsOk, init0, salt>>
 
 BuildEnd ==
   /\ pc = "building" /\ todo = {}
@@ -128,9 +146,7 @@ BuildEnd ==
                         ELSE pc' = "sent" /\ cached' = TRUE       \* coordinator(): lookup unless cached
   /\ NoStep
   /\ UNCHANGED <<pom, store, todo, req, resp, ops, commits, faults, closeSt, attempt, auto, retryMax,
-                 marks, touched, lowSince, lowAfterSnap, reqLow, backOk, clearOk, finalsOk, init0>>
-
-SetSeq(S) == LET RECURSIVE F(_) F(X) == IF X = {} THEN <<>> ELSE LET x == CHOOSE y \in X : TRUE IN <<x>> \o F(X \ {x}) IN F(S)
+                 marks, touched, lowSince, lowAfterSnap, reqLow, backOk, clearOk, finalsOk, init0, salt>>
 
 \* effect of the coordinator storing the positions of the partitions in A
 StoreApply(A) ==
@@ -156,7 +172,7 @@ Coord ==
           /\ finalsOk' = IF closeSt = "final" THEN FALSE ELSE finalsOk
           /\ Step("coord", "-", 0, "", IF applied THEN "after" ELSE "before", <<>>)
   /\ UNCHANGED <<pom, req, ops, commits, closeSt, attempt, auto, retryMax, marks, touched,
-                 lowAfterSnap, reqLow, clearOk, init0>>
+                 lowAfterSnap, reqLow, clearOk, init0, salt>>
 
 \* handleResponse for one partition of the request
 HandleOne(p) ==
@@ -169,14 +185,14 @@ HandleOne(p) ==
   /\ cached' = IF resp[p] \in {"redispatch", "unknown"} THEN FALSE ELSE cached
   /\ NoStep
   /\ UNCHANGED <<store, pc, req, resp, ops, commits, faults, closeSt, attempt, auto, retryMax, marks, touched,
-                 lowSince, lowAfterSnap, reqLow, backOk, finalsOk, init0>>
+                 lowSince, lowAfterSnap, reqLow, backOk, finalsOk, init0, salt>>
 
 HandleEnd ==
   /\ pc = "resp" /\ todo = {}
   /\ pc' = "after"
   /\ NoStep
   /\ UNCHANGED <<pom, store, todo, req, resp, cached, ops, commits, faults, closeSt, attempt, auto, retryMax,
-                 marks, touched, lowSince, lowAfterSnap, reqLow, backOk, clearOk, finalsOk, init0>>
+                 marks, touched, lowSince, lowAfterSnap, reqLow, backOk, clearOk, finalsOk, init0, salt>>
 
 \* after a flush: Commit() -> releasePOMs(false); in the final loop decide whether to go on
 After ==
@@ -186,18 +202,19 @@ After ==
                 THEN "closed" ELSE closeSt
   /\ NoStep
   /\ UNCHANGED <<pom, store, todo, req, resp, cached, ops, commits, faults, attempt, auto, retryMax,
-                 marks, touched, lowSince, lowAfterSnap, reqLow, backOk, clearOk, finalsOk, init0>>
+                 marks, touched, lowSince, lowAfterSnap, reqLow, backOk, clearOk, finalsOk, init0, salt>>
 
 \* Close(): close(closing); wait for mainLoop (no commit running); asyncClosePOMs;
 \* final attempts only with auto-commit
 CloseBegin ==
   /\ closeSt = "open" /\ pc = "idle"
+  /\ SimSalts > 0 => ops = MaxOps
   /\ closeSt' = IF auto THEN "final" ELSE "closed"
   /\ attempt' = 0 /\ finalsOk' = TRUE
   /\ pom' = [p \in Parts |-> [pom[p] EXCEPT !.done = TRUE]]
   /\ Step("close", "-", 0, "", "none", <<>>)
   /\ UNCHANGED <<store, pc, todo, req, resp, cached, ops, commits, faults, auto, retryMax, marks, touched,
-                 lowSince, lowAfterSnap, reqLow, backOk, clearOk, init0>>
+                 lowSince, lowAfterSnap, reqLow, backOk, clearOk, init0, salt>>
 
 Next == \/ \E p \in Parts, o \in 0..MaxOff, m \in Metas : Mark(p, o, m) \/ Reset(p, o, m)
         \/ BuildStart \/ BuildEnd \/ Coord \/ HandleEnd \/ After \/ CloseBegin
@@ -211,7 +228,7 @@ TypeOK == /\ pc \in {"idle", "building", "sent", "resp", "after"}
           /\ DOMAIN req \subseteq Parts
 \* every pair sent to / stored by the coordinator was marked or reset to (or was there initially)
 CommittedWasMarked == \A p \in Parts : store[p] \in marks[p]
-RequestIsSnapshot == \A p \in DOMAIN req : req[p] \in marks[p] \ {init0[p]} \/ (touched[p] /\ req[p] \in marks[p])
+RequestIsSnapshot == \A p \in DOMAIN req : touched[p] /\ req[p] \in marks[p]
 \* commits take the stored offset backwards only if ResetOffset asked for it (ghost, set in StoreApply)
 StoreBackwardsOnlyAfterReset == backOk
 \* dirty is cleared only when pending = committed (ghost, set in HandleOne)
@@ -225,8 +242,10 @@ CleanMeansStored == \A p \in Parts : (touched[p] /\ ~pom[p].dirty) => store[p] =
 \* Close returned, auto-commit, final attempts accepted => store = latest mark
 ClosedAndAccepted == (closeSt = "closed" /\ auto /\ finalsOk) => \A p \in Parts : touched[p] => store[p] = Cur(p)
 \* MarkOffset never lowers, ResetOffset never raises (action properties)
-MarkNeverLowers == [][\A p \in Parts : (hist' # hist /\ Emit /\ hist'[Len(hist')].act = "mark") => pom'[p].off >= pom[p].off]_vars
-PendingMoves == [][\A p \in Parts : pom'[p].off # pom[p].off => pc' = pc /\ store' = store]_vars
+MarkNeverLowers == [][\A p \in Parts, o \in 0..MaxOff, m \in Metas : Mark(p, o, m) => pom'[p].off >= pom[p].off]_vars
+ResetNeverRaises == [][\A p \in Parts, o \in 0..MaxOff, m \in Metas : Reset(p, o, m) => pom'[p].off <= pom[p].off]_vars
+\* only MarkOffset/ResetOffset move the pending position; a commit never does
+OnlyMarksMovePending == [][(\E p \in Parts : Cur(p)' # Cur(p)) => ops' = ops + 1]_vars
 
 \* role 2: finished behaviours as JSON cases
 Emitted ==
